@@ -42,7 +42,8 @@ def items(ctx):
             op = rng.choice(["kbest", "kbest", "kbest", "best", "align", "kbest_fast", "reset"])
             k = rng.choice([-1, 1, 1, 2, 3, N, N + 1])
             hist.append((op, k))
-        variants = [{"use_lb": ul, "use_c": uc, "as_value": rng.random() < 0.3}
+        variants = [{"use_lb": ul, "use_c": uc, "as_value": rng.random() < 0.3,
+                     "both": rng.choice([None, None, "value_smaller", "dist_smaller"])}
                     for ul in (False, True) for uc in (False, True)]
         out.append({"q": qs, "cands": cands, "S": 1, "set": st, "history": hist, "variants": variants})
     # lower bound under stress: queries SHORTER than the candidates, narrow windows, a wider alphabet and k = 1-2,
